@@ -65,6 +65,17 @@ class HostDecoder:
         self.on_packet = on_packet
         self.broken = False
         self.raw = SymBytes()
+        self.lenient = False          # True: framing errors are recorded in framing_errors and judged by the harness (a call that raises may leave a truncated message behind)
+        self.framing_errors = []
+
+    def _chk(self, cond, label, detail=None):
+        if self.lenient:
+            if not cond:
+                self.framing_errors.append(label)
+                self.broken = True       # nothing after a framing error is delivered to the simulated services
+                return False
+            return True
+        return self.ctx.check(cond, label, detail=detail)
 
     def feed(self, data):
         data = as_sym(data)
@@ -82,25 +93,27 @@ class HostDecoder:
             return False
         cmdw, a0, a1, ln, ck, mg = (word_le(buf, 4 * i) for i in range(6))
         if isinstance(cmdw, SymInt):
-            if not ctx.check(sor(*[cmdw == w for w in KNOWN]), 'wire: command word is one of the seven known commands'):
+            if not self._chk(sor(*[cmdw == w for w in KNOWN]), 'wire: command word is one of the seven known commands'):
                 self.broken = True
                 return False
             cmdw = core.concretize(cmdw)
-        elif not ctx.check(cmdw in KNOWN, 'wire: command word is one of the seven known commands', detail=hex(cmdw)):
+        elif not self._chk(cmdw in KNOWN, 'wire: command word is one of the seven known commands', detail=hex(cmdw)):
             self.broken = True
             return False
-        ctx.check(mg == M32 - cmdw, 'wire: magic == command XOR 0xFFFFFFFF')
+        if not self._chk(mg == M32 - cmdw, 'wire: magic == command XOR 0xFFFFFFFF') and self.lenient:
+            return False
         if isinstance(ln, SymInt):
             ln = core.concretize(ln)
         if ln > (1 << 20) + 64:
-            ctx.fail('wire: data_length larger than any payload the API can produce')
+            self._chk(False, 'wire: data_length larger than any payload the API can produce')
             self.broken = True
             return False
         if len(buf) < 24 + ln:
             return False
         payload = buf[24:24 + ln]
         s = sum_shim(payload)
-        ctx.check(ck == (s % (1 << 32) if isinstance(s, SymInt) else s & M32), 'wire: data_check == byte sum of payload mod 2^32')
+        if not self._chk(ck == (s % (1 << 32) if isinstance(s, SymInt) else s & M32), 'wire: data_check == byte sum of payload mod 2^32') and self.lenient:
+            return False
         self.buf = buf[24 + ln:]
         p = HostPacket(KNOWN[cmdw], a0, a1, payload, len(self.packets))
         self.packets.append(p)
@@ -111,7 +124,7 @@ class HostDecoder:
     def finish(self):
         """At the end of a scenario nothing may be left over (header and payload are written back to back)."""
         if not self.broken:
-            self.ctx.check(len(self.buf) == 0, 'wire: no partial packet left on the wire', detail='%d stray bytes' % len(self.buf))
+            self._chk(len(self.buf) == 0, 'wire: no partial packet left on the wire', detail='%d stray bytes' % len(self.buf))
 
 
 # ------------------------------------------------------------------------------------------------
